@@ -217,6 +217,8 @@ class FakeTzLocal:
 
 
 class FakeTzModule:
+    _verif_stand_in = "tz-module"
+
     def __init__(self, world):
         w = world
         self.tzlocal = lambda: FakeTzLocal(w)
@@ -245,8 +247,11 @@ class FakeDatetimeModule:
         w = world
         self.timedelta = FakeTimedelta
         self.timezone = FakeTimezone
+        self._verif_stand_in = "datetime-module"
 
         class datetime:
+            _verif_stand_in = "datetime-class"
+
             @staticmethod
             def now(tz=None):
                 return FakeDatetime(w, w.now, w.now_micro, None if tz is None else _tz_off(tz))
@@ -287,6 +292,8 @@ class FakeDatetimeModule:
 
 
 class FakeTimeModule:
+    _verif_stand_in = "time-module"
+
     def __init__(self, world):
         self._w = world
 
